@@ -10,6 +10,8 @@
              the state Broken
   LOOP       every cycle of deserialize_next_inner contains a read from the source
   PANIC      reviewed inventory of panic-capable constructs on the reader path
+  CONSUMED   (shared with C05) also the snappy arm: the decompressed buffer is read entirely or Err   (found F35)
+  IOERR      ... end of a slice is an io UnexpectedEof like end of a reader (the report-once latch keys on it) (found F36)
 It does NOT decide "yields only genuine values" for every truncation/corruption, nor decompressor resource use.
 """
 from ..lib import *
